@@ -91,6 +91,9 @@ type cursor struct {
 	prevLine     lineBreakClass // the Line Break Class at index i-1 (see rules LB9 and LB10 for edge cases)
 	line         lineBreakClass // the Line Break Class at index i
 	nextLine     lineBreakClass // the Line Break Class at index i+1
+	// the Line Break Class of the first rune after index i which is not a CM or ZWJ,
+	// only maintained when `line` is OP or HY (see rule LB25)
+	nextLineAfterMarks lineBreakClass
 
 	// true if the rune described by `prevLine` (that is, following rule LB9,
 	// ignoring CM and ZWJ) is in [\p{Extended_Pictographic}&\p{Cn}],
